@@ -49,8 +49,14 @@ func compare(c *pipe.Case, g *pipe.Got, ref []pipe.RefLine) error {
 	if ef != wr {
 		return fmt.Errorf("harness self-check: reference splitter counts %d lines, newline count says %d", wr, ef)
 	}
-	if g.ReadErrors != len(c.Missing) {
-		return fmt.Errorf("%d read errors reported, %d inputs cannot be opened (all others are healthy)", g.ReadErrors, len(c.Missing))
+	wantErrs := len(c.Missing)
+	for _, in := range c.Inputs {
+		if c.ViaReader && in.FailWithData {
+			wantErrs++
+		}
+	}
+	if g.ReadErrors != wantErrs {
+		return fmt.Errorf("%d read errors reported, %d expected (inputs that cannot be opened + inputs whose last read fails; all others are healthy)", g.ReadErrors, wantErrs)
 	}
 	if g.Read != wr {
 		return fmt.Errorf("ReadLines=%d, true number of lines=%d (batch=%d workers=%d readers=%d bb=%d)", g.Read, wr, c.Batch, c.Workers, c.Readers, c.BatchBuffer)
@@ -63,6 +69,38 @@ func compare(c *pipe.Case, g *pipe.Got, ref []pipe.RefLine) error {
 	}
 	if uint64(len(g.Copies)) != wm {
 		return fmt.Errorf("%d matches emitted, %d expected", len(g.Copies), wm)
+	}
+	if c.Extract == "{#}" {
+		// the key is the JSON view of the match. Its text is C16's subject;
+		// here it has to identify the match: pairing every emitted match with
+		// its line of the reference, one view text belongs to one tuple of
+		// group texts and the other way round (a view left over from another
+		// line - same line number in another input - breaks that).
+		type at struct {
+			src string
+			no  uint64
+		}
+		refAt := map[at]string{}
+		for _, l := range ref {
+			if l.Class == pipe.Matched {
+				refAt[at{l.Source, l.LineNo}] = l.Key
+			}
+		}
+		fwd, back := map[string]string{}, map[string]string{}
+		for i, m := range g.Copies {
+			want, ok := refAt[at{m.Source, m.LineNumber}]
+			if !ok {
+				return fmt.Errorf("a match was emitted for %s line %d, which the sequential evaluation does not classify as matched", m.Source, m.LineNumber)
+			}
+			if prev, seen := fwd[m.Extracted]; seen && foldBools(prev) != foldBools(want) {
+				return fmt.Errorf("{#} of %s line %d is %q, the same text as the view of a match with other group texts (%q vs %q)", m.Source, m.LineNumber, pbt.Trunc(m.Extracted, 200), pbt.Trunc(prev, 200), pbt.Trunc(want, 200))
+			}
+			if prev, seen := back[want]; seen && prev != m.Extracted {
+				return fmt.Errorf("{#} of %s line %d is %q, but an identical match was rendered %q", m.Source, m.LineNumber, pbt.Trunc(m.Extracted, 200), pbt.Trunc(prev, 200))
+			}
+			fwd[m.Extracted], back[want] = want, m.Extracted
+			g.Copies[i].Extracted = want
+		}
 	}
 	var gk, wk []string
 	for _, m := range g.Copies {
@@ -77,6 +115,19 @@ func compare(c *pipe.Case, g *pipe.Got, ref []pipe.RefLine) error {
 		return fmt.Errorf("multiset of emitted (source,key) differs from the sequential evaluation:\n%s", d)
 	}
 	return nil
+}
+
+// foldBools: the JSON view writes a group whose text is true/false in any
+// capitalisation as the literal, so TRUE and true share one view text.
+func foldBools(surrogate string) string {
+	parts := strings.Split(surrogate, "\x01")
+	for i, p := range parts {
+		q := strings.TrimPrefix(p, "\x02#")
+		if l := strings.ToLower(q); (l == "true" || l == "false") && len(l) == len(q) {
+			parts[i] = p[:len(p)-len(q)] + l
+		}
+	}
+	return strings.Join(parts, "\x01")
 }
 
 func observe(c *pipe.Case, g *pipe.Got, ref []pipe.RefLine) {
@@ -158,9 +209,19 @@ const rule = "inputs = generated lines (log-like, key=value, hostile bytes incl.
 func TestFiles(t *testing.T) {
 	pbt.Run(t, pbt.Spec[pipe.Case]{
 		Property: "C01", Name: "files",
-		Rule:     "file path (OpenFilesToChan), 1-6 files x <=240 lines: " + fmt.Sprintf(rule, len(pipe.RegexPool), len(pipe.DissectPool)),
-		Budget:   pbt.Budget{Quick: 12000, Thorough: 400000},
-		Gen:      func(t *rapid.T) pipe.Case { return pipe.GenCase(t, 6, 240) },
+		Rule:   "file path (OpenFilesToChan), 1-6 files x <=240 lines: " + fmt.Sprintf(rule, len(pipe.RegexPool), len(pipe.DissectPool)),
+		Budget: pbt.Budget{Quick: 12000, Thorough: 400000},
+		Gen: func(t *rapid.T) pipe.Case {
+			c := pipe.GenCase(t, 6, 240)
+			if c.Matcher.Kind != "default" && rapid.IntRange(0, 7).Draw(t, "jsonView") == 0 {
+				// key (and sometimes the ignore test) built from the JSON view of the match
+				c.Extract = "{#}"
+				if rapid.Bool().Draw(t, "jsonIgnore") {
+					c.Ignores = []string{"{like {#} " + rapid.SampledFrom([]string{"GET", "POST", "PUT", "Z"}).Draw(t, "needle") + "}"}
+				}
+			}
+			return c
+		},
 		Check:    checkInProc,
 		Classify: classify,
 	})
